@@ -70,6 +70,15 @@ Theorem C18_rate_limit_device :
 Proof. exact rate_limit_device. Qed.
 Print Assumptions C18_rate_limit_device.
 
+(* the same through the emitted call, which casts speed_ms to unsigned long (W bits): every speed_ms
+   below 2^W, negative ones included *)
+Theorem C18_rate_limit_device_emit :
+  forall (W : Z) (sty : style) (cols row : Z) (text : list Z) (speed : Z) (lp : bool) (nows : list Z),
+  0 <= W -> speed < 2 ^ W -> tick_times_ok nows ->
+  rate_limited speed (step_times (snd (drun1 sty cols (fst (dstart_emit W sty cols row text speed lp)) nows))).
+Proof. exact rate_limit_device_emit. Qed.
+Print Assumptions C18_rate_limit_device_emit.
+
 (* one LCDTick = exactly one tick helper call per registered animation of that display, in order *)
 Theorem C18_tick_each_once :
   forall (cols now : Z) (anims : list (style * dstate)),
